@@ -721,6 +721,36 @@ class Typestate(object):
         return res
 
 
+def handle_as_value(ctx, handles):
+    """H7 - a timer handle is an identifier, not a quantity: the only call it may be handed to is COTmrDelete (as the action
+    id).  A handle passed where a time, a length or a count is expected (`COTmrGetTicks(tmr, x->Tmr, ...)` for `x->Tmt`: the two
+    fields sit next to each other and have convertible types) arms the timeout with the id of the action - a few
+    milliseconds, or 65535 ms for -1 - instead of the configured time."""
+    m = ctx.m
+    n = 0
+    for fname, fn in sorted(m.funcs.items()):
+        for c in walk(fn.body):
+            if c.k != 'call':
+                continue
+            nm = callee_name(c)
+            for i, a in enumerate(c.kids[1:]):
+                a0 = strip(a)
+                if a0 is None or a0.k != 'mem' or not handles.is_handle(a0.field):
+                    continue
+                n += 1
+                props = HANDLE_PROPS.get(a0.field, ['C08'])
+                site = '%s: %s as argument %d of %s' % (m.loc(fname, c), show(a0), i, nm or 'an indirect call')
+                if nm == 'COTmrDelete' and i == 1:
+                    ctx.ob(props, 'RF3-H7', fname, site, 'action id of COTmrDelete', nontrivial=False)
+                else:
+                    ctx.ob(props, 'RF3-H7', fname, site, None)
+                    ctx.find(props, 'RF3-H7', fname, 'handle-as-value:%s.%s:%s' % (a0.field[0], a0.field[1], nm), m.loc(fname, c),
+                             '%s passes the timer handle %s to %s (argument %d): a handle is an action id, not a time or a count - the '
+                             'callee computes with the id of the action (or with -1)' % (fname, show(a0), nm or 'an indirect call', i))
+    ctx.inst('RF3.handle-arguments', n)
+    ctx.require_min(sorted(set(p for v in HANDLE_PROPS.values() for p in v)), 'RF3-H7', n, 8, 'timer handles passed as call arguments')
+
+
 # -------------------------------------------------------------------------- driver
 def run(ctx):
     m = ctx.m
@@ -735,6 +765,7 @@ def run(ctx):
         if fld not in HANDLE_PROPS:
             ctx.broke(allp, 'RF3: new timer handle field %s.%s is not attributed to a property '
                             '(tables: HANDLE_PROPS)' % fld)
+    handle_as_value(ctx, handles)
     ts = Typestate(m, handles, ctx)
     ctor = set(f for f in m.funcs if any(callee_name(n) == 'COTmrInit' for (n, tg, e, d) in m.calls[f]))
     toplevel_slots = set(m.addr_taken)
